@@ -116,8 +116,14 @@ class Obs:
         return [x.canon()[:4] for x in self.itf.log] if self.itf is not None else []
 
 
-def run_cli(argv, handler):
+# every main() run / API connection made in THIS process, in order (histories for replays)
+PROCESS_LOG = []
+
+
+def run_cli(argv, handler, cfg=None):
     """pyipmi.ipmitool.main() with sys.argv = ['ipmitool.py'] + argv over `handler`"""
+    PROCESS_LOG.append({'kind': 'cli', 'argv': list(argv)} if cfg is None else
+                       {'kind': 'cli', 'argv': list(argv), 'cfg': cfg})
     import logging
     import pyipmi
     import pyipmi.interfaces
@@ -180,6 +186,7 @@ def run_cli(argv, handler):
 def run_api(fn, handler):
     """the corresponding API call, made directly on an Ipmi object over `handler`"""
     import pyipmi
+    PROCESS_LOG.append({'kind': 'api', 'session': None, 'judge': False})
     itf = Iface(handler)
     ipmi = pyipmi.create_connection(itf)
     ipmi.target = pyipmi.Target(0x20)
@@ -445,8 +452,14 @@ def expected_of(cfg):
     sess = None
     if 'H' in cfg:
         sess = (cfg['H'], cfg.get('p', 623), cfg.get('U', ''), cfg.get('P', ''), LEVELS[cfg.get('L', 'administrator')])
+    # (host, port, user, password, privilege level, auth type): untouched defaults without -H
+    raw = (None, None, None, None, 4, 0) if sess is None else sess + (4,)
     return {'iface': cfg.get('I', 'aardvark'), 'kwargs': kw, 'addr': cfg.get('t', 0x20), 'routing': routing,
-            'session': sess}
+            'session': sess, 'session_raw': raw}
+
+
+def session_raw(s):
+    return (s.rmcp_host, s.rmcp_port, s.auth_username, s.auth_password, s.priv_level, s.auth_type)
 
 
 def observed_setup(o):
@@ -460,7 +473,7 @@ def observed_setup(o):
     if s.rmcp_host is not None:
         sess = (s.rmcp_host, s.rmcp_port, s.auth_username, s.auth_password, s.priv_level)
     return {'iface': o.factory[0], 'kwargs': dict(o.factory[2]), 'addr': t.ipmb_address, 'routing': routing,
-            'session': sess}
+            'session': sess, 'session_raw': session_raw(s)}
 
 
 # =====================================================================================
@@ -574,11 +587,13 @@ def oracle_power(inp):
 
 def oracle_options(inp):
     """options take effect exactly as given"""
-    cfg = inp['cfg']
+    return judge_setup(run_cli(inp['argv'], B.Bmc().handle, cfg=inp['cfg']), inp['cfg'])
+
+
+def judge_setup(o, cfg):
     cfg = dict(cfg)
     if 'o' in cfg:
         cfg['o'] = [tuple(x) for x in cfg['o']]
-    o = run_cli(inp['argv'], B.Bmc().handle)
     if o.exc is not None:
         return 'Python error %s: %s' % (type(o.exc).__name__, str(o.exc)[:150])
     got = observed_setup(o)
@@ -592,6 +607,54 @@ def oracle_options(inp):
         return 'the request does not carry the configured target'
     if want['session'] is not None and (o.itf.session is not o.ipmi.session):
         return 'the interface did not get the configured session'
+    if o.ipmi.session.interface is not o.itf:
+        return 'the session is not bound to the interface of this run'
+    return None
+
+
+def oracle_history(inp):
+    """a sequence of main() runs / API connections in ONE process: every call must behave as if it
+    were the only one - judged against what ITS OWN options say (stateless), whatever earlier calls
+    configured; connections must not share a session"""
+    import pyipmi
+    made = []                                   # (ipmi, interface) of every connection so far
+    for n, c in enumerate(inp['calls']):
+        msg = None
+        if c['kind'] == 'cli':
+            o = run_cli(c['argv'], B.Bmc().handle)
+            if 'cfg' in c:
+                msg = judge_setup(o, c['cfg'])
+            ipmi, itf = o.ipmi, o.itf
+        else:
+            itf = Iface(B.Bmc().handle)
+            ipmi = pyipmi.create_connection(itf)
+            if c.get('judge', True):
+                if session_raw(ipmi.session) != (None, None, None, None, 4, 0):
+                    msg = 'a new connection starts with session %r instead of the defaults' % (session_raw(ipmi.session),)
+                elif c.get('session'):
+                    h, port, u, pw, lvl = c['session']
+                    ipmi.session.set_session_type_rmcp(h, port)
+                    ipmi.session.set_auth_type_user(u, pw)
+                    ipmi.session.set_priv_level(lvl)
+                    if session_raw(ipmi.session) != (h, port, u, pw, LEVELS[lvl], 4):
+                        msg = 'session setters: got %r' % (session_raw(ipmi.session),)
+            elif c.get('session'):
+                h, port, u, pw, lvl = c['session']
+                ipmi.session.set_session_type_rmcp(h, port)
+                ipmi.session.set_auth_type_user(u, pw)
+                ipmi.session.set_priv_level(lvl)
+        if msg is None and ipmi is not None and (c['kind'] == 'api' and c.get('judge', True) or 'cfg' in c):
+            if ipmi.session.interface is not itf:
+                msg = 'the session of this connection is bound to another interface'
+            for k, (pi, pitf) in enumerate(made):
+                if pi.session is ipmi.session:
+                    msg = 'this connection shares its session object with connection %d' % k
+                elif pi.session.interface is not pitf:
+                    msg = 'the session of connection %d was re-bound to another interface' % k
+        if ipmi is not None:
+            made.append((ipmi, itf))
+        if msg:
+            return 'call %d of the history (%s): %s' % (n, ' '.join(c['argv']) if c['kind'] == 'cli' else 'API create_connection', msg)
     return None
 
 
@@ -646,7 +709,7 @@ def oracle_fault(inp):
 
 
 ORACLES = {'command': oracle_command, 'power': oracle_power, 'options': oracle_options, 'raw': oracle_raw,
-           'fault': oracle_fault}
+           'fault': oracle_fault, 'history': oracle_history}
 
 
 def replay(data):
@@ -668,6 +731,7 @@ def run(ctx):
     D = C.Distinct()
     terms, meta, fails = [], [], {}
     uncovered = []
+    log_at = {}
 
     def add(t, info):
         terms.append(t)
@@ -685,8 +749,9 @@ def run(ctx):
         if msg and name == 'options':
             key = 'options:' + (('python-error:' + msg.split()[2].rstrip(':')) if msg.startswith('Python error') else
                                 '+'.join(w.rstrip(':') for w in msg.split() if w.endswith(':') and w.rstrip(':') in
-                                         ('iface', 'kwargs', 'addr', 'routing', 'session')) or 'other')
+                                         ('iface', 'kwargs', 'addr', 'routing', 'session', 'session_raw')) or 'other')
         if msg and key not in fails:
+            log_at[key] = len(PROCESS_LOG)
             what = msg
             if 'argv' in inp:
                 what += '   [argv: %s]' % ' '.join(inp['argv'])
@@ -702,6 +767,65 @@ def run(ctx):
             return                      # -r literal that is not a list of int/None tuples: outside the model
         if all(printable(a) for a in argv) and (o.selected is None or all(printable(a) for a in o.selected[1])):
             add('chk_main %s %s %s' % (c_strs(argv), literal_of(argv), c_outcome(o)), (kind, argv))
+
+    # ---- (h) histories: several main() runs and API connections in ONE process, earlier ones giving
+    # session / target / interface options the later ones omit and vice versa; every call is judged against
+    # what its own options say (oracle) and against the stateless model evaluated on its own argv (chk_main)
+    tails = [['raw', '6', '1'], ['bmc', 'info'], ['chassis', 'status']]
+
+    def cli_item(cfg):
+        return {'kind': 'cli', 'argv': render_config(rng, cfg) + rng.choice(tails), 'cfg': cfg}
+    full = {'H': '10.0.0.9', 'p': 1623, 'U': 'op', 'P': 'pw', 'L': 'user', 't': 0x82, 'I': 'ipmitool',
+            'o': [IFACE_OPTS['ipmitool'][0], IFACE_OPTS['ipmitool'][2]], 'r': [(0x81, 0x20, 0), (0x20, 0x82, None)]}
+    histories = [
+        [cli_item(full), cli_item({}), {'kind': 'api', 'session': None}, cli_item({'H': 'bmc.example'}),
+         cli_item({'U': 'x', 'L': 'operator'}), cli_item({'H': 'h2', 'L': 'operator'}), cli_item({'H': 'h3'}),
+         {'kind': 'api', 'session': ['10.1.1.1', 623, 'api-user', 'api-pw', 'user']}, {'kind': 'api', 'session': None},
+         cli_item({'t': 0x72, 'b': 7}), cli_item({})],
+        [cli_item({}), cli_item(full), cli_item({'I': 'aardvark'}), {'kind': 'api', 'session': None}],
+        [{'kind': 'api', 'session': ['10.1.1.1', 1623, 'u', 'p', 'operator']}, cli_item({}), cli_item({'H': 'h', 'U': 'u2'})],
+    ]
+    for _ in range(3 if q else 40):
+        hist = []
+        for k in range(rng.randrange(3, 9)):
+            r = rng.random()
+            if r < 0.15:
+                hist.append({'kind': 'api', 'session': rng.choice([None, ['10.1.1.1', 623, 'api', 'pw', rng.choice(list(LEVELS))]])})
+            elif r < 0.4:
+                hist.append(cli_item({}))
+            elif r < 0.6:
+                c = gen_config(rng, full=True)
+                hist.append(cli_item({k2: v for k2, v in c.items() if k2 not in ('H', 'p')}))       # session options without -H
+            else:
+                hist.append(cli_item(gen_config(rng, full=True)))
+        histories.append(hist)
+    for hist in histories:
+        start = len(PROCESS_LOG)
+        res.evaluations += len(hist)
+        msg = ORACLES['history']({'calls': hist})
+        for c in hist:
+            D.add(('hist', c['kind'], tuple(c.get('argv', [])), repr(c.get('session'))), True,
+                  'history-cli' if c['kind'] == 'cli' else 'history-api')
+        if msg and 'history:call-not-as-its-own-options-say' not in fails:
+            # confirm and shrink from a clean start; if this sequence alone does not reproduce, the state was
+            # left by what ran before it in this process: take the whole process log
+            seq = C.shrink_history('C20', 'history', hist)
+            if seq is None:
+                seq = C.shrink_history('C20', 'history', PROCESS_LOG[:start] + hist)
+            if seq is not None:
+                fails['history:call-not-as-its-own-options-say'] = C.Violation(
+                    key='history:call-not-as-its-own-options-say',
+                    what=(ORACLES['history']({'calls': seq}) or msg) + '   [history of %d call(s), confirmed in a fresh process]' % len(seq),
+                    replay={'oracle': 'history', 'input': {'calls': seq}})
+            else:
+                fails['history:not-reproducible'] = C.Violation(
+                    key='history:not-reproducible', what=msg + '   [not reproducible from a clean start]',
+                    replay={'oracle': 'history', 'input': {'calls': PROCESS_LOG[:start] + hist}})
+    # the same runs against the stateless model, each on its own argv
+    for hist in histories:
+        for c in hist:
+            if c['kind'] == 'cli':
+                main_case(c['argv'], run_cli(c['argv'], B.Bmc().handle, cfg=c['cfg']), 'history')
 
     cmds = list(T.COMMANDS)
     # ---- the generated table against the live objects
@@ -868,6 +992,36 @@ def run(ctx):
             obs = '(Some (%s, %s))' % (C.c_opt(C.c_str(lines[-1]) if lines else None), C.c_Z(o.status))
         add('chk_end %s %s' % (term, obs), ('end', term))
         D.add(('end', term), True, 'error-end')
+
+    # ---- a single-run oracle failed here, in a process with a long history: does its replay fail alone?
+    # if not, the failure depends on earlier runs: give it the history (shrunk, confirmed in a fresh process)
+    for key in list(fails):
+        v = fails[key]
+        if v.replay.get('oracle') not in ('options', 'command', 'power', 'raw', 'fault'):
+            continue
+        if not C.holds_in_fresh_process('C20', v.replay):
+            continue                                  # reproduces on its own: a plain finding
+        del fails[key]
+        hkey = 'history:call-not-as-its-own-options-say'
+        if hkey in fails:
+            fails[hkey].what += ' (+ %s fails only after earlier runs)' % key
+            continue
+        log = PROCESS_LOG[:log_at.get(key, len(PROCESS_LOG))]
+        seq = None
+        if v.replay['oracle'] == 'options':
+            last = {'kind': 'cli', 'argv': v.replay['input']['argv'], 'cfg': v.replay['input']['cfg']}
+            for window in (40, 400, len(log)):
+                seq = C.shrink_history('C20', 'history', log[-window:][:-1] + [last]) if len(log) > 1 else None
+                if seq is not None or window >= len(log):
+                    break
+        if seq is not None:
+            fails[hkey] = C.Violation(key=hkey, what=(ORACLES['history']({'calls': seq}) or v.what) +
+                                      '   [history of %d call(s), confirmed in a fresh process]' % len(seq),
+                                      replay={'oracle': 'history', 'input': {'calls': seq}})
+        else:
+            v.what += '   [fails only inside the check process; not reproducible from a clean start]'
+            v.found_input = False
+            fails[key] = v
 
     failing, errors = C.coq_cases('C20', 'Lib.Prog Model.Cli Gen.CliTable Corr.C20', terms)
     res.mismatches = [{'case': meta[i], 'term': terms[i][:1500]} for i in failing[:50]]
